@@ -188,7 +188,34 @@ func runC13(e *Engine, r *Report, tier string) {
 			okAbs = all
 		}
 		r.Check(okAbs, "R1", k+" absent(0x14)", e.InstrPos(edit.set14[0]), "new bridger must be unused", "the new bridger address is not checked for being bound to another oracle")
-		r.Check(len(edit.set12) > 0, "R1", k+" record", e.Pos(edit.fn.Pos()), "record rewritten with the new bridger", "the oracle record is not updated with the new bridger")
+		okRec := len(edit.set12) > 0
+		if !okRec {
+			// a helper that returns the re-keyed record: every caller stores that returned record
+			sites := e.CallSites(edit.fn)
+			all := len(sites) > 0
+			for _, cs := range sites {
+				if isAuxPkg(fnPkgPath(cs.Caller)) {
+					continue
+				}
+				cv, isVal := cs.Call.(ssa.Value)
+				stored := false
+				allCalls(cs.Caller, func(c ssa.CallInstruction) {
+					if !e.callDirectOp(c, cc, "12", "set") || !Dominates(cs.Call, c) || !isVal {
+						return
+					}
+					for _, a := range nonCtxArgs(c) {
+						if e.rootsValue(a, cv) {
+							stored = true
+						}
+					}
+				})
+				if !stored {
+					all = false
+				}
+			}
+			okRec = all
+		}
+		r.Check(okRec, "R1", k+" record", e.Pos(edit.fn.Pos()), "record rewritten with the new bridger", "the oracle record is not updated with the new bridger (the record that is stored is not the one whose bridger was changed)")
 		// delete before set
 		r.Check(Dominates(edit.del14[0], edit.set14[0]), "R1", k+" order", e.InstrPos(edit.set14[0]), "old index deleted before the new one is set", "new bridger index is written on a path that does not delete the old one")
 	}
